@@ -122,6 +122,22 @@ def dense_spec(rng, nt=None, nc=None, ns=None, nsw=None, curated=None, whiten=No
     return spec
 
 
+def check_wmi(spec, wmi):
+    """The inverse whitening matrix a model shows is the stored inverse when the dataset has one, an
+    inverse of the stored whitening matrix otherwise (identity without whitening). Returns a message
+    or None."""
+    wmi = np.asarray(wmi, dtype=np.float64)
+    nc = spec['n_channels']
+    if spec.get('whitening_inv') is not None:
+        if not np.array_equal(wmi, np.asarray(spec['whitening_inv'], dtype=np.float64)):
+            return 'the inverse whitening matrix of the model is not the stored whitening_mat_inv.npy'
+        return None
+    wm = np.asarray(spec['whitening'], dtype=np.float64) if spec.get('whitening') is not None else np.eye(nc)
+    if wmi.shape != wm.shape or not np.allclose(wm @ wmi, np.eye(nc), rtol=0, atol=1e-9):
+        return 'the inverse whitening matrix of the model is not an inverse of the whitening matrix'
+    return None
+
+
 def wmi_of(spec):
     nc = spec['n_channels']
     if spec.get('whitening_inv') is not None:
